@@ -321,12 +321,25 @@ func c16notify(c *an.Ctx) {
 		good := false
 		for _, ec := range an.CallsTo(fn, exiting) {
 			for _, t := range an.BoolTests(ec.Value()) {
+				// the command constructor reached first on the paths from the edge – called directly, or through a function
+				// value the path chose (`build := nsq.Register; if exiting { build = nsq.UnRegister }; build(…)`)
 				firstCall := func(e an.Edge) *ssa.Function {
-					for _, x := range e.To.Instrs {
-						if call, ok := x.(*ssa.Call); ok {
-							if f := an.StaticCallee(call); f == reg || f == unreg {
-								return f
+					got := map[*ssa.Function]bool{}
+					q := &an.PathQ{Fn: fn, StartEdges: []an.Edge{e}, AllAlias: true, FullOnly: true,
+						Sink: func(ssa.Instruction, *an.PathState) bool { return false },
+						Cut: func(x ssa.Instruction, st *an.PathState) bool {
+							if call, ok := x.(*ssa.Call); ok {
+								if f := calleeOnPath(call, st); f == reg || f == unreg {
+									got[f] = true
+									return true
+								}
 							}
+							return false
+						}}
+					q.Find()
+					if len(got) == 1 {
+						for f := range got {
+							return f
 						}
 					}
 					return nil
@@ -340,15 +353,40 @@ func c16notify(c *an.Ctx) {
 	}
 	// arguments: channel => (topicName, name), topic => (name, "")
 	argOK := 0
-	for _, rc := range an.CallsTo(fn, reg, unreg) {
+	type cmdCall struct {
+		ci ssa.CallInstruction
+		n  int
+	}
+	var cmdCalls []cmdCall
+	for _, ci := range an.CallsIn(fn, func(ssa.CallInstruction) bool { return true }) {
+		if f := an.StaticCallee(ci); f != nil {
+			if f == reg || f == unreg {
+				cmdCalls = append(cmdCalls, cmdCall{ci, 1})
+			}
+			continue
+		}
+		// a constructor chosen at run time: every candidate is one of the two
+		cands := an.MethodValueCallees(ci)
+		all := len(cands) > 0
+		for _, f := range cands {
+			if f != reg && f != unreg {
+				all = false
+			}
+		}
+		if all {
+			cmdCalls = append(cmdCalls, cmdCall{ci, len(cands)})
+		}
+	}
+	for _, cc := range cmdCalls {
+		rc := cc.ci
 		a0, _ := an.LoadedField(an.Strip(rc.Common().Args[0]))
 		a1, _ := an.LoadedField(an.Strip(rc.Common().Args[1]))
 		s, isC := an.ConstString(rc.Common().Args[1])
 		if a0 != nil && a0.Name() == "topicName" && a1 != nil && a1.Name() == "name" {
-			argOK++
+			argOK += cc.n
 		}
 		if a0 != nil && a0.Name() == "name" && isC && s == "" {
-			argOK++
+			argOK += cc.n
 		}
 	}
 	c.Check(argOK == 4, fn, "REGISTER/UNREGISTER name the right object", fn.Pos(), "", sprintf("only %d of the 4 REGISTER/UNREGISTER commands carry (topicName, channelName) / (topicName, \"\")", argOK))
